@@ -363,6 +363,11 @@ pub trait Prop: Sync {
         J::Null
     }
     /// coverage-guided campaigns for the thorough tier: (fuzz target, runs)
+    /// run `conv::canary()` after every case (properties whose statement covers what the canary
+    /// asserts: a well-formed greeting, one conformant reply per command, exact text values)
+    fn canary(&self) -> bool {
+        false
+    }
     fn fuzz_plan(&self, _tier: Tier) -> Vec<(&'static str, u64)> {
         vec![]
     }
@@ -623,7 +628,18 @@ fn eval_case<P: Prop>(p: &P, case: &P::Case, known: &[Known], stats: &Stats, rec
     let js = serde_json::to_string(case).expect("case serialises");
     JOURNAL.with(|j| *j.borrow_mut() = Some((p.id().to_string(), js.clone())));
     watch_begin(p.id(), &js);
-    let ex = match catch(|| p.exec(case)) {
+    let ex = match catch(|| {
+        let mut ex = p.exec(case);
+        if p.canary() && ex.failures.is_empty() {
+            // Nothing of one connection may leak into the next one served by the same thread
+            // (thread-locals, statics, pooled buffers): a small, ordinary connection is run right
+            // after the case and must come out pristine.
+            if let Err(m) = crate::conv::canary() {
+                ex.fail("state-leaked-into-the-next-connection", format!("after this case, an ordinary connection served by the same thread misbehaves: {}", m));
+            }
+        }
+        ex
+    }) {
         Ok(ex) => ex,
         Err(pr) => {
             // a panic that escaped the property's own capture: harness bug or library panic
@@ -759,6 +775,14 @@ fn print_known_lines(prop: &str, known: &[Known], stats: &Stats) {
             out!("KNOWN-FINDING: property={} {} [key={} hits={}]", prop, k.what, k.key, n);
         }
     }
+}
+
+fn rule_with_canary<P: Prop>(p: &P) -> String {
+    let mut r = p.rule();
+    if p.canary() {
+        r.push_str(" After every case a small ordinary connection (PING, a query answered with one text row, PING, QUIT) is served on the same thread and must come out conformant and exact: nothing of one connection may leak into the next (thread-locals, statics, pooled buffers).");
+    }
+    r
 }
 
 pub fn run<P: Prop>(p: &P, tier: Tier) -> i32 {
@@ -931,7 +955,7 @@ pub fn run<P: Prop>(p: &P, tier: Tier) -> i32 {
     let mut coverage = json!({
         "evaluations": evaluations,
         "distinct_nontrivial": distinct,
-        "rule": p.rule(),
+        "rule": rule_with_canary(p),
         "samples": samples,
         "regression_inputs_replayed": replayed,
         "enumerated_cases": n_fixed,
